@@ -72,6 +72,39 @@ def two_parses(a2: int, b1: int, b2: int, la: bool, lb: bool) -> bool:
     return _outcome(shared, fb, B, lb) == _outcome(DefaultArgsParser(), fb, B, lb)
 
 
+def same_objects(b1: int, b2: int, la: bool, lb: bool, fresh_parser: bool) -> bool:
+    """
+    pre: 0 <= b1 < len(MENU) and 0 <= b2 < len(MENU)
+    post: _
+    """
+    # the SAME raw-args object and the SAME format object are parsed twice (any two leniency modes), on one parser or on two:
+    # the second result depends on its own mode only
+    from vf.sym import conc_bool, untraced
+    return untraced(_same_objects_case, SK[PART["fb"]], _pick(b1), _pick(b2), conc_bool(la), conc_bool(lb), conc_bool(fresh_parser))
+
+
+def _same_objects_case(fb, t1, t2, la, lb, fresh_parser):
+    raw = ArgvArgs(["prog", t1, t2])
+    shared = DefaultArgsParser()
+
+    def run(parser, lenient):
+        try:
+            a = parser.parse(raw, fb.fmt, lenient)
+        except ALLOWED as e:
+            return ("exc", type(e).__name__, str(e))
+        return ("ok", a.arguments(False), a.options(False), a.arguments(True), a.options(True))
+
+    run(shared, la)
+    second = run(DefaultArgsParser() if fresh_parser else shared, lb)
+    ref_raw = ArgvArgs(["prog", t1, t2])
+    try:
+        a = DefaultArgsParser().parse(ref_raw, fb.fmt, lb)
+        ref = ("ok", a.arguments(False), a.options(False), a.arguments(True), a.options(True))
+    except ALLOWED as e:
+        ref = ("exc", type(e).__name__, str(e))
+    return second == ref
+
+
 def three_parses(a: int, b: int, c1: int, c2: int, lenient: bool) -> bool:
     """
     pre: 0 <= b < len(_menus()[0]) and 0 <= c1 < len(_menus()[1]) and 0 <= c2 < len(_menus()[1])
@@ -107,6 +140,22 @@ def _listing(fmt):
             [(a.name, a.flags, a.default) for a in fmt.get_arguments().values()])
 
 
+def _declared_ok(skel):
+    """The format and every format of its base chain list exactly the elements they were declared with (own-only and merged views)."""
+    while skel is not None:
+        f = skel.fmt
+        if list(f.get_arguments(False)) != [a.name for a in skel.args] or list(f.get_arguments()) != [a.name for a in skel.all_args]:
+            return False
+        if list(f.get_options(False)) != [o.long for o in skel.opts] or sorted(f.get_options()) != sorted(o.long for o in skel.all_opts):
+            return False
+        if [c.string for c in f.get_command_names(False)] != [c[0] for c in skel.cmds] or [c.string for c in f.get_command_names()] != [c[0] for c in skel.all_cmds]:
+            return False
+        if f.has_required_argument() != any(a.kind in ("req", "multireq") for a in skel.all_args) or f.has_multi_valued_argument() != any(a.kind.startswith("multi") for a in skel.all_args):
+            return False
+        skel = skel.base
+    return True
+
+
 ALPHA = "-fox="
 
 
@@ -132,7 +181,7 @@ def no_mutation(t1: str, t2: str, lenient: bool) -> bool:
         DefaultArgsParser().parse(raw, skel.fmt, lenient)
     except ALLOWED:
         pass
-    return raw.tokens == tokens_before and raw.option_tokens == opt_before and _listing(skel.fmt) == listing and argv == snapshot + ["later"]
+    return raw.tokens == tokens_before and raw.option_tokens == opt_before and _listing(skel.fmt) == listing and argv == snapshot + ["later"] and _declared_ok(skel)
 
 
 def no_mutation_menu(k1: int, k2: int, lenient: bool) -> bool:
@@ -152,7 +201,7 @@ def no_mutation_menu(k1: int, k2: int, lenient: bool) -> bool:
         DefaultArgsParser().parse(raw, skel.fmt, lenient)
     except ALLOWED:
         pass
-    return raw.tokens == tokens_before and _listing(skel.fmt) == listing and (base_listing is None or _listing(skel.fmt.base_format) == base_listing)
+    return raw.tokens == tokens_before and _listing(skel.fmt) == listing and (base_listing is None or _listing(skel.fmt.base_format) == base_listing) and _declared_ok(skel)
 
 
 def no_mutation_string(t1: str, t2: str, lenient: bool) -> bool:
@@ -188,6 +237,9 @@ def conditions(tier):
         for a1 in range(len(ma)):
             conds.append({"name": "three_parses[%s,%s,%r]" % (fa, fb, ma[a1]), "fn": three_parses, "timeout": t, "part": {"fa": fa, "fb": fb, "a1": a1, "full": full},
                           "bounds": "[%r] with %s strict, [m] with %s, then [m', m'] with %s on one parser" % (ma[a1], fa, fb, fa)})
+    for fb in (("S1", "S2", "S6") if quick else ("S1", "S2", "S3", "S4", "S5", "S6", "S8")):
+        conds.append({"name": "same_objects[%s]" % fb, "fn": same_objects, "timeout": t, "part": {"fb": fb},
+                      "bounds": "one RawArgs object ([m, m'] from %r) and the format object %s parsed twice, each parse strict or lenient, on one parser or two" % (MENU, fb)})
     conds.append({"name": "two_parses_twin", "fn": two_parses_twin, "timeout": t, "expect": "refute", "part": {"fa": "S1", "fb": "S1", "a1": 2}, "bounds": "reachability twin"})
     for sk in (("S1", "S4", "S5") if quick else ("S1", "S2", "S3", "S4", "S5", "S8")):
         for l1, l2 in ([(1, 2), (2, 2)] if quick else [(a, b) for a in range(0, 3) for b in range(0, 4)]):
